@@ -125,6 +125,25 @@ class Folder:
                     return False
                 left = right
             return True
+        if isinstance(n, ast.Subscript):
+            base = self.ev(n.value)
+            if isinstance(n.slice, ast.Slice):
+                lo = self.ev(n.slice.lower) if n.slice.lower is not None else None
+                hi = self.ev(n.slice.upper) if n.slice.upper is not None else None
+                if isinstance(base, (str, tuple, list)) and all(x is None or isinstance(x, int) for x in (lo, hi)) and n.slice.step is None:
+                    return base[lo:hi]
+                self.fail(n, "slice not modelled")
+            k = self.ev(n.slice)
+            if isinstance(base, (str, tuple, list)) and isinstance(k, int):
+                try:
+                    return base[k]
+                except IndexError:
+                    raise _Raised(Outcome("raise", "IndexError", n))
+            if isinstance(base, dict):
+                if k in base:
+                    return base[k]
+                raise _Raised(Outcome("raise", "KeyError", n))
+            self.fail(n, "subscript not modelled")
         if isinstance(n, ast.Tuple):
             return tuple(self.ev(e) for e in n.elts)
         if isinstance(n, ast.List):
@@ -138,6 +157,12 @@ class Folder:
                 if isinstance(v, str):
                     return v if f == "str" else repr(v)
                 self.fail(n, "repr of a non-record")
+            if isinstance(n.func, ast.Attribute) and n.func.attr == "get" and 1 <= len(n.args) <= 2:
+                d = self.ev(n.func.value)
+                if isinstance(d, dict):
+                    k = self.ev(n.args[0])
+                    return d.get(k, self.ev(n.args[1]) if len(n.args) == 2 else None)
+                self.fail(n, ".get on a non-mapping")
             if isinstance(n.func, ast.Attribute) and n.func.attr in ("startswith", "endswith") and len(n.args) == 1:
                 s, a = self.ev(n.func.value), self.ev(n.args[0])
                 if isinstance(s, str) and isinstance(a, (str, tuple)):
